@@ -1,6 +1,7 @@
 package props
 
 import (
+	"github.com/miekg/dns"
 	"fmt"
 	"time"
 
@@ -43,14 +44,100 @@ func init() {
 
 func runC11(sc *IngScenario, tr *kit.Trace) *kit.Result {
 	res := kit.NewResult()
+	var suspect string
 	kit.Bubble(func() {
 		x := execIng(sc, tr, res)
 		if x == nil || res.Viol != nil {
 			return
 		}
 		c11Check(x, tr, res)
+		if res.Viol == nil {
+			suspect = c11ExpiryCoincidence(x, res)
+		}
 	})
+	if suspect == "" || res.Viol != nil {
+		return res
+	}
+	// Counterfactual: the same history without the first client's query (its packet is marked as
+	// a response, which is never answered nor resolved). If the second client is answered there,
+	// what failed it here was the first client's expiry and nothing else.
+	twin := *sc
+	twin.Ops = append([]IngOp(nil), sc.Ops...)
+	twin.Ops[sc.Stall.A].Kind = "response"
+	res2 := kit.NewResult()
+	answered := false
+	kit.Bubble(func() {
+		x2 := execIng(&twin, &kit.Trace{}, res2)
+		if x2 == nil || res2.Viol != nil {
+			return
+		}
+		if rb := x2.recs[sc.Stall.B]; rb != nil && len(rb.Replies) == 1 && c11HasAddress(rb.Replies[0].Data) {
+			answered = true
+		}
+	})
+	res.SimTime += res2.SimTime
+	if answered {
+		res.Fail("C11/failed-by-anothers-expiry", "%s; in the same history without the first client's query the second client gets the address", suspect)
+	} else {
+		res.Probes["expiry-coincidence-not-confirmed-by-counterfactual"]++
+	}
 	return res
+}
+
+// c11ExpiryCoincidence looks at the two clients of the stalled-server recipe: the first ran out
+// of time (SERVFAIL at its deadline), the second - younger, with time left - was failed at that
+// very instant. Returns a description when that is what happened.
+func c11ExpiryCoincidence(x *ingRun, res *kit.Result) string {
+	st := x.sc.Stall
+	if st == nil || st.A >= len(x.recs) || st.B >= len(x.recs) || x.recs[st.A] == nil || x.recs[st.B] == nil {
+		return ""
+	}
+	ra, rb := x.recs[st.A], x.recs[st.B]
+	if len(ra.Replies) != 1 || len(rb.Replies) != 1 || len(ra.Replies[0].Data) < 4 || len(rb.Replies[0].Data) < 4 {
+		return ""
+	}
+	res.Probes["stalled-server-recipe-ran"]++
+	latA, ageB := ra.Replies[0].At-ra.SentAt, rb.Replies[0].At-rb.SentAt
+	expiredA := latA >= x.timeout-100*time.Millisecond
+	if expiredA {
+		res.Probes["leader-expired-while-follower-waited"]++
+		res.Nontrivial = true
+	}
+	if c11HasAddress(rb.Replies[0].Data) {
+		res.Probes["follower-answered-after-leader-expired"]++
+		return ""
+	}
+	// Only where the first client's deadline is the one thing that can have ended the shared
+	// lookup: the budget is shorter than a single upstream attempt (1.5 s in this world), so no
+	// attempt had failed yet. With a longer budget the lookup may end at that same instant with
+	// every attempt failed - the last one cut short - which is a failure of the zone's server,
+	// for everybody.
+	if x.timeout >= 1500*time.Millisecond {
+		return ""
+	}
+	gap := rb.Replies[0].At - ra.Replies[0].At
+	if gap < 0 {
+		gap = -gap
+	}
+	if expiredA && gap <= 100*time.Millisecond && ageB <= x.timeout-300*time.Millisecond {
+		return fmt.Sprintf("op %d (%s) ran out of time after %v; op %d (%s), asked %v later and only %v old with a budget of %v, was sent a reply without the address (rcode %d) within %v of that instant",
+			ra.Idx, ra.QName, latA, rb.Idx, rb.QName, rb.SentAt-ra.SentAt, ageB, x.timeout, rb.Replies[0].Data[3]&0xf, gap)
+	}
+	return ""
+}
+
+// c11HasAddress: the reply is NOERROR and carries an A record (the aliases' target has one).
+func c11HasAddress(raw []byte) bool {
+	m := new(dns.Msg)
+	if m.Unpack(raw) != nil || m.Rcode != dns.RcodeSuccess {
+		return false
+	}
+	for _, rr := range m.Answer {
+		if rr.Header().Rrtype == dns.TypeA {
+			return true
+		}
+	}
+	return false
 }
 
 func c11Check(x *ingRun, tr *kit.Trace, res *kit.Result) {
